@@ -4,6 +4,7 @@ package core
 import (
 	"github.com/relab/hotstuff"
 	"github.com/relab/hotstuff/internal/tree"
+	"sync"
 )
 
 // RuntimeConfig stores runtime configuration settings.
@@ -15,7 +16,10 @@ type RuntimeConfig struct {
 	syncVoteVerification bool
 
 	connectionMetadata map[string]string
-	replicas           map[hotstuff.ID]*hotstuff.ReplicaInfo
+	// the replica table is filled while the connections are set up, when the server already
+	// handles messages on the transport's goroutines: it is read and written under replicasMut.
+	replicasMut sync.RWMutex
+	replicas    map[hotstuff.ID]*hotstuff.ReplicaInfo
 
 	sharedRandomSeed int64
 
